@@ -7,7 +7,7 @@
    * random.randint(a, b) consumes one element of the draw list; an exhausted list reads as a.
    No proofs about the C07 models here (those are in Proofs/C07_gen_equiv.v), only generic loop lemmas. *)
 From Coq Require Import List ZArith Bool Lia.
-From DV Require Import Base.PyList Base.C07_Num.
+From DV Require Import Base.PyList Base.C07_Num Model.C07_RefPoints.
 Import ListNotations.
 
 Inductive ctl (S R : Type) : Type := Next (s : S) | Ret (r : R).
@@ -160,3 +160,12 @@ Proof.
   destruct (H x s (or_introl eq_refl) Hs) as [E Q]. rewrite E. apply IH; [exact Q|].
   intros y st Hy. apply H. now right.
 Qed.
+
+(* the hand model of uniform_reference_points (Model/C07_RefPoints.v: numerators gen_num, division at the end) seen
+   through the interface of the nested generator gen_refs_recursive(ref, nobj, left, total, depth): the first `depth`
+   entries of `ref` followed by numerator / total.  (The alias a refused gen_refs_recursive is emitted as, and the
+   right-hand side of its equivalence lemma.) *)
+Definition gen_refs_model {T} (Op : numops T) (fuel : nat) (ref : list T) (nobj left total depth : Z) : list (list T) :=
+  map (fun nums => firstn (Z.to_nat depth) ref
+                   ++ map (fun i => n_div Op (n_ofZ Op (Z.of_nat i)) (n_ofZ Op total)) nums)
+      (gen_num (Z.to_nat nobj - 1 - Z.to_nat depth) (Z.to_nat left) []).
